@@ -113,3 +113,31 @@ extern "C" void c18_csv_ser()
   verif_assert((int)line.size() == n, "C18: serialised field has the expected length (quotes doubled, quoted iff needed)");
   for (int i = 0; i < 6; ++i) if (i < n && (int)line.size() == n) verif_assert(line[i] == e[i], "C18: serialised field content");
 }
+
+// c18_utf8_decode: every well-formed UTF-8 sequence (RFC 3629 section 4, the table quoted in utf8helper.cpp) of VX_N bytes pushed into
+// an empty utf8 string becomes exactly one character of VX_N bytes; a byte that cannot start a sequence adds nothing.
+#ifndef VX_N
+#define VX_N 4
+#endif
+static bool cont(unsigned char c) { return c >= 0x80 && c <= 0xBF; }
+static bool wellformed(const unsigned char* b, int n)
+{
+  if (n == 1) return b[0] <= 0x7F;
+  if (n == 2) return b[0] >= 0xC2 && b[0] <= 0xDF && cont(b[1]);
+  if (n == 3) return ((b[0] == 0xE0 && b[1] >= 0xA0 && b[1] <= 0xBF) || (b[0] >= 0xE1 && b[0] <= 0xEC && cont(b[1])) || (b[0] == 0xED && b[1] >= 0x80 && b[1] <= 0x9F) || (b[0] >= 0xEE && b[0] <= 0xEF && cont(b[1]))) && cont(b[2]);
+  return ((b[0] == 0xF0 && b[1] >= 0x90 && b[1] <= 0xBF) || (b[0] >= 0xF1 && b[0] <= 0xF3 && cont(b[1])) || (b[0] == 0xF4 && b[1] >= 0x80 && b[1] <= 0x8F)) && cont(b[2]) && cont(b[3]);
+}
+extern "C" void c18_utf8_decode()
+{
+  utf8helper::UTF8String* u = new utf8helper::UTF8String();
+  u->Reserve(4);
+  unsigned char b[4];
+  for (int k = 0; k < VX_N; ++k) b[k] = in_uchar(k);
+  bool wf = wellformed(b, VX_N);
+  bool bad_lead = (b[0] >= 0x80 && b[0] <= 0xC1) || b[0] >= 0xF5;
+  verif_assume(wf || (VX_N == 1 && bad_lead));
+  for (int k = 0; k < VX_N; ++k) u->WriteByte((char)b[k]);
+  VX_WITNESS();
+  if (wf) verif_assert(u->Size() == 1 && u->RawSize() == (size_t)VX_N, "C18: a well-formed UTF-8 sequence (RFC 3629) is one character of as many bytes - none is dropped");
+  else verif_assert(u->Size() == 0 && u->RawSize() == 0, "C18: a byte that cannot start a UTF-8 sequence adds nothing");
+}
